@@ -4,7 +4,24 @@ import (
 	"encoding/json"
 	"math"
 	"os"
+	"runtime"
+	"time"
 )
+
+func ndLiveGoroutines() int {
+	for k := 0; k < 20; k++ {
+		runtime.Gosched()
+		if runtime.NumGoroutine() <= vfBaseGoroutines+1 {
+			break
+		}
+		time.Sleep(5 * time.Millisecond)
+	}
+	n := runtime.NumGoroutine() - vfBaseGoroutines - 1
+	if n < 0 {
+		n = 0
+	}
+	return n
+}
 
 var ndModelMap map[string]uint64
 
